@@ -262,10 +262,12 @@ def read_scsv(file):
         csv_lines = []
 
         is_yaml = False
+        n_fences = 0
         for line in fileref:
             if line == "\n":  # Empty lines are skipped.
                 continue
-            if line == "---\n":
+            if line == "---\n" and n_fences < 2:  # Later '---' lines are data.
+                n_fences += 1
                 if is_yaml:
                     is_yaml = False  # Second --- ends YAML section.
                     continue
